@@ -96,8 +96,10 @@ def rhs_alphabet(pattern, key_idx):
     items = S.items_for(PATTERNS[pattern])
     m = R.build(tuple(DIMS), items, lambda lab: 0.0)
     region, src, has_list = region_of(m, sel)
-    out = [dict(kind="number")]
+    out = [dict(kind="number"), dict(kind="int-number")]
     out.append(dict(kind="ndarray"))
+    out.append(dict(kind="ndarray-ro"))      # exact shape, a read-only view of a writable buffer
+    out.append(dict(kind="ndarray-bcast"))   # exact shape, produced by np.broadcast_to (read-only, zero strides)
     if not has_list:
         rl = region.letters
         dropped = [l for l, s in zip(DIMS, sel) if s[0] == "item"]
@@ -205,6 +207,9 @@ def make_rhs(st, op, region):
     if r["kind"] == "number":
         v = tag + 0.5
         return v, {lab: v for lab in region.labels()}
+    if r["kind"] == "int-number":
+        v = int(tag) + 3
+        return v, {lab: float(v) for lab in region.labels()}
     shape = tuple(len(region.items[l]) for l in region.letters)
     if r["kind"] == "ndarray":
         vals = np.zeros(shape)
@@ -213,6 +218,24 @@ def make_rhs(st, op, region):
             vals[idx] = tag + k
             eff[tuple(region.items[l][i] for l, i in zip(region.letters, idx))] = tag + k
         return vals, eff
+    if r["kind"] in ("ndarray-ro", "ndarray-bcast"):
+        if r["kind"] == "ndarray-ro":
+            base = np.zeros(shape)
+            eff = {}
+            for k, idx in enumerate(itertools.product(*[range(n) for n in shape])):
+                base[idx] = tag + 2 * k + 1
+                eff[tuple(region.items[l][i] for l, i in zip(region.letters, idx))] = tag + 2 * k + 1
+            view = base.view()
+        else:
+            last = shape[-1] if shape else 1
+            base = np.array([tag + 5 * k for k in range(last)], dtype=float) if shape else np.array(tag + 5.0)
+            view = np.broadcast_to(base, shape)
+            eff = {}
+            for idx in itertools.product(*[range(n) for n in shape]):
+                eff[tuple(region.items[l][i] for l, i in zip(region.letters, idx))] = float(base[idx[-1]] if shape else base)
+        view.setflags(write=False)
+        make_rhs.base = base
+        return view, eff
     if r["kind"] == "nd-bad":
         return np.full(tuple(r["shape"]), tag + 7.0), None
     if r["kind"] == "list-of-lists":
@@ -257,6 +280,7 @@ def apply_op(st, op, check):
     rhs, eff = make_rhs(st, op, region)
     before = st.m.copy()
     rhs_snapshot = rhs.copy() if isinstance(rhs, np.ndarray) else None
+    rhs_base = getattr(make_rhs, "base", None) if op["rhs"]["kind"] in ("ndarray-ro", "ndarray-bcast") else None
 
     def do():
         st.X[key] = rhs
@@ -297,7 +321,11 @@ def apply_op(st, op, check):
         if rhs_snapshot is not None:
             if not np.array_equal(rhs, rhs_snapshot):
                 return fail("rhs-changed", "the assigned ndarray was modified")
-            rhs[...] = -12345.0  # scribble on the source: an assigned ndarray is always copied
+            # scribble on the source: an assigned ndarray is always copied
+            if rhs_base is not None:
+                rhs_base[...] = -12345.0
+            else:
+                rhs[...] = -12345.0
             obs2 = observe.arr(st.X)
             if st.m.diff(obs2):
                 return fail("not-copied", "changing the assigned ndarray afterwards changed the target")
